@@ -136,6 +136,23 @@ func TestVerifC20Turbotunnel(t *testing.T) {
 		}
 		close(stop)
 		wg.Wait()
+		// a quiet client whose record has not been touched for a while (but has not expired) is looked up by several
+		// carriers at the same moment - the state in which a lookup refreshes the record
+		if round%3 != 2 {
+			quiet := c20addr("quiet-client")
+			for rep := 0; rep < 4; rep++ {
+				c.WriteTo([]byte{7}, quiet)
+				time.Sleep(15 * time.Millisecond) // timeout 40 ms: stale, not expired
+				start := make(chan struct{})
+				var lw sync.WaitGroup
+				for g := 0; g < 4; g++ {
+					lw.Add(1)
+					go func() { defer lw.Done(); <-start; _ = c.OutgoingQueue(quiet) }()
+				}
+				close(start)
+				lw.Wait()
+			}
+		}
 		c.Close()
 		<-readerDone
 		r.Case("turbotunnel/queuepacketconn", fmt.Sprintf("round %d drain=%v in=%d out=%d", round, round%2 == 0, atomic.LoadInt64(&in), atomic.LoadInt64(&out)), true)
